@@ -95,6 +95,72 @@ def lane_shape(ty):
     return 1, ty_bits(ty)
 
 
+def _ivalues(t, depth=0):
+    """[(condition, signed int value)] if the integer term is a selection among constants (through zext / sext / trunc), else None"""
+    if not isinstance(t, T) or depth > 8:
+        return None
+    if t.op == 'const':
+        return [(tm.TRUE, tm.sval(t))]
+    if t.w == 1:
+        return [(t, -1), (tm.not_(t), 0)]          # a boolean: sign-extended value -1 / 0 (zext masks it to 1)
+    if t.op == 'select':
+        a, b = _ivalues(t.args[1], depth + 1), _ivalues(t.args[2], depth + 1)
+        if a is None or b is None:
+            return None
+        c = t.args[0]
+        out = [(tm.and_(c, ca), va) for ca, va in a] + [(tm.and_(tm.not_(c), cb), vb) for cb, vb in b]
+        merged = {}
+        for cc, vv in out:
+            if cc is tm.FALSE:
+                continue
+            merged[vv] = tm.or_(merged[vv], cc) if vv in merged else cc
+        return [(cc, vv) for vv, cc in merged.items()]
+    if t.op in ('zext', 'sext'):
+        inner = _ivalues(t.args[0], depth + 1)
+        if inner is None:
+            return None
+        if t.op == 'zext':
+            w0 = t.args[0].w
+            return [(c, v & ((1 << w0) - 1)) for c, v in inner]
+        return inner
+    if t.op == 'concat' and all(p.op == 'const' and p.args[0] == 0 for p in t.args[1:]):
+        inner = _ivalues(t.args[0], depth + 1)
+        if inner is None:
+            return None
+        w0 = t.args[0].w
+        return [(c, v & ((1 << w0) - 1)) for c, v in inner]
+    if t.op == 'concat':
+        # bit-assembled value: every part a constant or a selection among constants (booleans included)
+        alts = [(tm.TRUE, 0)]
+        pos = 0
+        for part in t.args:
+            pv = _ivalues(part, depth + 1)
+            if pv is None or len(pv) * len(alts) > 16:
+                return None
+            mask = (1 << part.w) - 1
+            alts = [(tm.and_(c1, c2), v1 | ((v2 & mask) << pos)) for c1, v1 in alts for c2, v2 in pv]
+            alts = [(c, v) for c, v in alts if c is not tm.FALSE]
+            pos += part.w
+        out = []
+        for c, v in alts:
+            if v >> (t.w - 1):
+                v -= 1 << t.w
+            out.append((c, v))
+        return out
+    if t.op == 'slice' and t.args[1] == 0:
+        inner = _ivalues(t.args[0], depth + 1)
+        if inner is None:
+            return None
+        out = []
+        for c, v in inner:
+            v &= (1 << t.w) - 1
+            if v >> (t.w - 1):
+                v -= 1 << t.w
+            out.append((c, v))
+        return out
+    return None
+
+
 class PtrSel:
     """select between two pointers (only loads through it are supported)"""
     __slots__ = ('c', 'a', 'b')
@@ -591,13 +657,24 @@ class Interp:
                 vals.append(self.get(r))
         if not vals:
             raise Unsupported('phi without live incoming')
-        if any(isinstance(v, Ptr) for v in vals):
+        if any(isinstance(v, (Ptr, PtrSel)) for v in vals):
             if all(isinstance(v, Ptr) and v.base == vals[0].base and v.off == vals[0].off for v in vals):
                 self.env[ins['id']] = vals[0]
                 return
+            if all(isinstance(v, (Ptr, PtrSel)) for v in vals):
+                rel = self._edge_conds_rel(self.cur, ps)
+                r = vals[-1]
+                for c, v in reversed(list(zip(rel[:-1], vals[:-1]))):
+                    r = PtrSel(c.to_term(), v, r)
+                self.env[ins['id']] = r
+                return
             raise Unsupported('phi of pointers')
-        if isinstance(vals[0], list):
-            raise Unsupported('phi of aggregates')
+        if any(isinstance(v, list) for v in vals):
+            if not all(isinstance(v, list) and len(v) == len(vals[0]) and all(isinstance(x, T) for x in v) for v in vals):
+                raise Unsupported('phi of aggregates')
+            rel = self._edge_conds_rel(self.cur, ps)
+            self.env[ins['id']] = [self._chain(rel, [v[i] for v in vals]) for i in range(len(vals[0]))]
+            return
         rel = self._edge_conds_rel(self.cur, ps)
         self.setv(ins, self._chain(rel, vals))
 
@@ -607,7 +684,24 @@ class Interp:
     def op_getelementptr(self, ins):
         b = self.get(ins['base'])
         if ins['off'] is None:
-            raise Unsupported('variable gep')
+            # variable index: supported when every index is a selection among finitely many constants
+            # (loop-unrolled tables, "largest component" indices): the pointer becomes a guarded choice of constant offsets
+            if 'var' not in ins:
+                raise Unsupported('variable gep')
+            alts = [(tm.TRUE, ins.get('coff', 0))]
+            for r, scale in ins['var']:
+                vs = _ivalues(self.get(r))
+                if vs is None or len(vs) * len(alts) > 16:
+                    raise Unsupported('variable gep: index %s' % (tm.show(self.get(r), 4) if isinstance(self.get(r), T) else type(self.get(r))))
+                alts = [(tm.and_(c1, c2), o + v * scale) for c1, o in alts for c2, v in vs]
+            alts = [(c, o) for c, o in alts if c is not tm.FALSE]
+            if not alts:
+                raise Unsupported('variable gep without feasible index')
+            p = self._gep(b, alts[-1][1])
+            for c, o in reversed(alts[:-1]):
+                p = PtrSel(c, self._gep(b, o), p)
+            self.env[ins['id']] = p
+            return
         self.env[ins['id']] = self._gep(b, ins['off'])
 
     def _gep(self, b, off):
@@ -647,15 +741,34 @@ class Interp:
     def op_store(self, ins):
         v = self.get(ins['ops'][0])
         p = self.get(ins['ops'][1])
-        if not isinstance(p, Ptr):
-            raise Unsupported('store through non-pointer')
         if isinstance(v, Ptr):
             raise Unsupported('store of pointer')
         if isinstance(v, list):
             raise Unsupported('store of aggregate')
-        if v.w % 8:
+        if isinstance(v, T) and v.w % 8:
             v = tm.zext(v, ins['bytes'] * 8)
+        if isinstance(p, PtrSel):
+            self._store_sel(p, v, tm.TRUE)
+            return
+        if not isinstance(p, Ptr):
+            raise Unsupported('store through non-pointer')
         self.mem.store(p.base, p.off, v)
+
+    def _store_sel(self, p, v, g):
+        """store through a guarded choice of pointers: each candidate location receives select(guard, v, previous content)"""
+        if isinstance(p, PtrSel):
+            self._store_sel(p.a, v, tm.and_(g, p.c))
+            self._store_sel(p.b, v, tm.and_(g, tm.not_(p.c)))
+            return
+        if not isinstance(p, Ptr):
+            raise Unsupported('store through non-pointer')
+        if g is tm.FALSE:
+            return
+        if g is tm.TRUE:
+            self.mem.store(p.base, p.off, v)
+            return
+        old = self.mem.load(p.base, p.off, v.w // 8)
+        self.mem.store(p.base, p.off, tm.select(g, v, old))
 
     # integer / float binary ops
     def _bin(self, ins, f):
